@@ -1,8 +1,45 @@
 package main
 
-import "fmt"
+import (
+	"bytes"
+	"fmt"
+	"go/ast"
+	"go/printer"
+	"go/types"
+
+	"golang.org/x/tools/go/packages"
+
+	"jsverif/internal/core"
+)
 
 func cmdDump(args []string) int {
-	fmt.Println("no dumps yet")
+	p, err := core.Load("/repo", "")
+	if err != nil {
+		fmt.Println(err)
+		return 1
+	}
+	switch args[0] {
+	case "mapranges":
+		p.ForEachNode(func(pk *packages.Package, file *ast.File, stack []ast.Node, n ast.Node) bool {
+			if rs, ok := n.(*ast.RangeStmt); ok {
+				if _, ok := core.TypeOf(pk, rs.X).Underlying().(*types.Map); ok {
+					var b bytes.Buffer
+					printer.Fprint(&b, p.Fset, rs)
+					fmt.Printf("== %s\n%s\n", p.Pos(rs.Pos()), b.String())
+				}
+			}
+			return true
+		})
+	case "ssa":
+		for _, f := range p.ScopeFuncs() {
+			if core.FuncName(f) == args[1] {
+				f.WriteTo(os_stdout{})
+			}
+		}
+	}
 	return 0
 }
+
+type os_stdout struct{}
+
+func (os_stdout) Write(b []byte) (int, error) { fmt.Print(string(b)); return len(b), nil }
